@@ -787,6 +787,31 @@ func checkDispatchAgree(p *an.Prog, r *an.Run, a *authCtx) {
 				}
 			}
 		})
+		// ... or the literal is built by a helper that receives the name as an argument at this call site
+		for _, hc := range an.Calls(cm, false) {
+			h := hc.Common().StaticCallee()
+			if h == nil || !p.InRepo(h) || len(h.Blocks) == 0 || h.Pkg != cm.Pkg {
+				continue
+			}
+			an.AllInstrs(h, func(in ssa.Instruction) {
+				st, ok := in.(*ssa.Store)
+				if !ok {
+					return
+				}
+				if fv := an.FieldOf(st.Addr); fv == nil || fv.Name() != "Method" {
+					return
+				}
+				for i, prm := range h.Params {
+					if st.Val == ssa.Value(prm) && i < len(hc.Common().Args) {
+						if s, ok := an.ConstString(hc.Common().Args[i]); ok {
+							consts = append(consts, s)
+						} else {
+							consts = append(consts, "<non-constant>")
+						}
+					}
+				}
+			})
+		}
 		found++
 		okc := len(consts) == 1 && len(ep.Names) > 0
 		if okc {
